@@ -607,7 +607,6 @@ func (w *World) Step(no int, st Step, b *Behaviour) error {
 
 var _ = json.NewObject
 
-
 // origChange finds the original in-memory change object of a stored row.
 func (w *World) origChange(d string, stored *change.Change) *change.Change {
 	k := fmt.Sprintf("%s/%s/%d/%d", d, stored.ID().ActorID().String(), stored.ID().ClientSeq(), stored.ID().Lamport())
@@ -644,7 +643,6 @@ func SnapshotRoundTrip(doc *document.InternalDocument) (ok bool, content string,
 	}
 	return true, obj.Marshal(), crdt.NewRoot(obj).GarbageLen(), ""
 }
-
 
 // FaultDB installs (once) and returns the fault-injecting database decorator.
 func (w *World) FaultDB() *FaultDB {
